@@ -81,6 +81,12 @@ def build_harness(universe, tag, race=False):
         fh.write(repo_sum)
     with open(os.path.join(d, 'types_gen.go'), 'w') as fh:
         fh.write(src)
+    if REPO != '/repo':
+        # VERIF_REPO: run against another checkout (scratch worktrees, background snapshots)
+        with open(os.path.join(d, 'go.mod')) as fh:
+            gm = fh.read()
+        with open(os.path.join(d, 'go.mod'), 'w') as fh:
+            fh.write(gm.replace('=> /repo', '=> ' + REPO))
     t0 = time.time()
     cmd = ['go', 'build', '-tags', 'verif', '-o', exe] + (['-race'] if race else []) + ['.']
     env = dict(GOENV)
